@@ -135,7 +135,16 @@ fn sym_name(s: u8) -> &'static str {
 }
 
 fn tree(ctor: Ctor, depth: usize, first: u8) -> (u64, u64, Vec<Viol>) {
-    let init = St { lc: ctor.build(), abc: [0; 3], fresh: 0, n: 0 };
+    // first >= 4: start from a counter that saw (first - 3) other elements and was cleared (the stream that follows a
+    // clear() is a stream like any other); the first symbol is then unrestricted
+    let mut lc = ctor.build();
+    if first >= 4 {
+        for j in 0..(first as u32 - 3) {
+            lc.add(5000 + j);
+        }
+        lc.clear();
+    }
+    let init = St { lc, abc: [0; 3], fresh: 0, n: 0 };
     let th = thresholds(init.lc.epsilon());
     let mut viols = vec![];
     let mut nodes = 0u64;
@@ -167,7 +176,12 @@ fn tree(ctor: Ctor, depth: usize, first: u8) -> (u64, u64, Vec<Viol>) {
             hist.pop();
         }
     }
-    rec(&init, &mut vec![], depth, &th, ctor, &mut nodes, &mut cmp, &mut viols, Some(first));
+    rec(&init, &mut vec![], depth, &th, ctor, &mut nodes, &mut cmp, &mut viols, if first < 4 { Some(first) } else { None });
+    for v in viols.iter_mut() {
+        if first >= 4 {
+            v.replay["prefix"] = json!(format!("add {} distinct other elements, clear()", first - 3));
+        }
+    }
     (nodes, cmp, viols)
 }
 
@@ -218,6 +232,12 @@ fn main() {
     for (ci, &c) in ctors.iter().enumerate() {
         for first in 0..4 {
             jobs.push((c, first, if ci < n_plain { depth } else { depth - 2 }));
+        }
+        if ci < n_plain {
+            // dirty-cleared starts: 1, 2, 3 elements seen before the clear (mid-window for widths >= 2)
+            for first in 4..7 {
+                jobs.push((c, first, depth - 2));
+            }
         }
         for g in 0..5 {
             jobs.push((c, -1 - g, if thorough { 30_000 } else { 4_000 }));
